@@ -15,6 +15,8 @@ for log in sys.argv[1:]:
         name, verdict, target, caught, mach = m.groups()
         caught = [c.strip(" '") for c in caught.split(",") if c.strip()]
         mach = [c.strip(" '") for c in mach.split(",") if c.strip()]
+        if not os.path.isdir(os.path.join(V, "seeded", name)):
+            continue   # a change that was re-classified (moved to /verif/benign) or dropped
         meta_p = os.path.join(V, "seeded", name, "meta.json")
         meta = json.load(open(meta_p)) if os.path.exists(meta_p) else {}
         t = meta.get("breaks_property", target)
